@@ -1464,3 +1464,7 @@ M('C18', 'pre-processing factors cached by axis length', 'odl/trafos/util/ft_uti
         onedim_arrs.append(factors[length])""", 'C18-R2b')
 M('C18', 'shifted pre-processing factor starts with -1', 'odl/trafos/util/ft_utils.py',
   "            factor[1::2] = -1", "            factor[::2] = -1", 'C18-R2b')
+M('C15', 'factory converts every non-floating value array to float', DUF,
+  "    f = np.asarray(f)\n\n    interp = _normalize_interp(interp, f.ndim)",
+  "    f = np.asarray(f)\n    if not np.issubdtype(f.dtype, np.floating):\n        f = f.astype(float)\n\n    interp = _normalize_interp(interp, f.ndim)",
+  'per_axis_interpolator')
